@@ -57,6 +57,21 @@ def const_values(func, e):
         return [e.value]
     if isinstance(e, ast.Name) and e.id not in func.all_params:
         vals = []
+        # `for keyword in ("$ref", "$recursiveRef")` / `for keyword in _REFERENCES` (a module-level tuple of names): each element
+        loops = [n for n in walk_body(func) if isinstance(n, (ast.For, ast.comprehension)) and isinstance(n.target, ast.Name) and n.target.id == e.id]
+        other = [n for n in walk_body(func) if isinstance(n, ast.Name) and n.id == e.id and isinstance(n.ctx, ast.Store)]
+        if loops and len(other) == len(loops):
+            for lp in loops:
+                it = lp.iter
+                if isinstance(it, ast.Name):
+                    binds = func.mod.bindings.get(it.id) or []
+                    if len(binds) == 1 and isinstance(binds[0][0], ast.expr):
+                        it = binds[0][0]
+                if isinstance(it, (ast.Tuple, ast.List, ast.Set)) and it.elts and all(isinstance(x, ast.Constant) and isinstance(x.value, str) for x in it.elts):
+                    vals += [x.value for x in it.elts]
+                else:
+                    return None
+            return vals
         for n in walk_body(func):
             if isinstance(n, ast.Assign) and any(isinstance(t, ast.Name) and t.id == e.id for t in n.targets):
                 if isinstance(n.value, ast.Constant) and isinstance(n.value.value, str):
